@@ -502,6 +502,11 @@ def judge_state_diff(ref, obs, full_log, upto):
   t, c, r, va, vb = real[0]
   tcat = t if t.startswith('_grist_') else 'usertable'
   kind = col_kind(ref, t, c)
+  if all(col_kind(ref, x[0], x[1]) == 'formula' and eqv.is_error_cell(x[4]) and x[4][1:2] == ['NameError'] and
+         x[3][1:2] != ['NameError'] for x in real):
+    # listed under C05 (NameError-not-recomputed-after-table-added): a formula that named a missing table is not
+    # re-evaluated when the table comes back (here: through undo)
+    return ('cells:NameError-stale-after-table-restored', [list(x) for x in real[:6]]), labels
   if all(col_kind(ref, x[0], x[1]) == 'formula' for x in real) and \
      lookup_key_retyped_in_log(full_log, formulas_of_snapshot(ref), [(x[0], x[1]) for x in real]):
     # listed under C13/C05: a lookup does not notice that its key column changed type (and back)
